@@ -1,6 +1,7 @@
 package vf
 
 import (
+	"os"
 	"encoding/json"
 	"fmt"
 	"sort"
@@ -230,6 +231,7 @@ type collDeepArg struct {
 	T     uint32 `json:"t"`
 	Shape int    `json:"shape"`
 	N     int    `json:"n"`
+	Big   bool   `json:"big,omitempty"` // 400-byte values kept inline in the group: its slab grows beyond 64 KiB (at slab size 1024)
 }
 
 func collDeepTask(raw json.RawMessage) TaskResult {
@@ -257,6 +259,11 @@ func collDeepTask(raw json.RawMessage) TaskResult {
 	w.Digests.Table[1000] = [4]uint64{3, 1, 1, 1}
 	w.Digests.Table[1001] = [4]uint64{9, 1, 1, 1}
 	what := fmt.Sprintf("collision group of %d keys, shape %d, default limit", a.N, a.Shape)
+	vcl := "t"
+	if a.Big {
+		vcl = "s400" // stays inline inside a collision group at slab size 1024 (the limit there is lower than for plain elements)
+		what += ", 400-byte values"
+	}
 	step := func(o Op) bool {
 		res.Evals++
 		if err := w.Apply(o); err != nil {
@@ -276,7 +283,7 @@ func collDeepTask(raw json.RawMessage) TaskResult {
 		return res
 	}
 	for k := 0; k < a.N; k++ {
-		if !step(Op{K: "mset", Key: k, V: "t"}) {
+		if !step(Op{K: "mset", Key: k, V: vcl}) {
 			return res
 		}
 		if k%37 == 0 || k >= 250 {
@@ -297,6 +304,16 @@ func collDeepTask(raw json.RawMessage) TaskResult {
 	if !check("sem", "struct", "order", "reopen") {
 		return res
 	}
+	if os.Getenv("VERIF_DEBUG") != "" {
+		for _, id := range w.Ledger.SortedIDs() {
+			fmt.Printf("DEBUG register %s: %d bytes\n", id, len(w.Ledger.Regs[id]))
+		}
+	}
+	// more work for the encoders after the (possibly very large) group slab went through them: another slab,
+	// another commit, everything read back from the registers
+	if !step(Op{K: "mset", Key: 1000, V: "s60"}) || !step(Op{K: "mset", Key: 5, V: "t"}) || !check("sem", "rt", "reopen") {
+		return res
+	}
 	// drain the group again (collapse of the external group back to a single element)
 	for k := 0; k < a.N+2; k++ {
 		if !step(Op{K: "mremove", Key: k}) {
@@ -314,7 +331,7 @@ func init() { RegisterTask("colldeep", collDeepTask) }
 func collDeepArgs() []any {
 	var args []any
 	for shape := 0; shape < 3; shape++ {
-		args = append(args, collDeepArg{T: 256, Shape: shape, N: 258}, collDeepArg{T: 1024, Shape: shape, N: 258})
+		args = append(args, collDeepArg{T: 256, Shape: shape, N: 258}, collDeepArg{T: 1024, Shape: shape, N: 258}, collDeepArg{T: 1024, Shape: shape, N: 258, Big: true})
 	}
 	return args
 }
